@@ -1,3 +1,23 @@
+/-
+  C06 — convert(civil, zone) preserves order (table level, no-shift path: across gaps, overlaps
+  and the saturated ends; the seam to 400-year-shifted years is covered by the correspondence run).
+-/
 import Cctz.Model.Tz
+import Cctz.Spec.TableSem
+import Cctz.Proofs.TableCivil
+
 namespace Cctz.C06
+open Cctz Cctz.Tz Cctz.Spec
+
+def convert_monotone_statement : Prop :=
+  ∀ (z : Zone) (h1 h2 : Nat) (cs1 cs2 : Fields), TableWF z → CivilCols z → Separated z →
+    Valid cs1 → Valid cs2 → NoShift z cs1 → NoShift z cs2 → secNum cs1 < secNum cs2 →
+    (convert z h1 cs1).val.1 ≤ (convert z h2 cs2).val.1
+
+/-- convert is `trans` across a gap and `pre` otherwise -/
+def convert_def_statement : Prop :=
+  ∀ (z : Zone) (h : Nat) (cs : Fields),
+    (convert z h cs).val.1 =
+      (if (makeTime z h cs).val.1.kind = .skipped then (makeTime z h cs).val.1.trans else (makeTime z h cs).val.1.pre)
+
 end Cctz.C06
